@@ -100,8 +100,8 @@ static inline int parse_xml(XmlDoc& d, Document* doc, bool newxta = true)
 }
 
 // ---------------------------------------------------------------- abstract model
-struct MLoc { std::string id, name, inv, rate; bool urgent = false, committed = false; };
-struct MEdge { int src = 0, dst = 0; bool src_bp = false, dst_bp = false; int ctrl = 0 /* 0 attribute absent, 1 "true", 2 "false" */; std::string select, guard, sync, assign, prob;
+struct MLoc { std::string id, name, inv, rate; bool urgent = false, committed = false; std::string comment; /* a <label kind="comments"> after the other labels (XML only) */ };
+struct MEdge { int src = 0, dst = 0; bool src_bp = false, dst_bp = false; int ctrl = 0 /* 0 attribute absent, 1 "true", 2 "false" */; std::string select, guard, sync, assign, prob, comment;
     std::string dst_ref_override, dst_name_override;   /* faults: XML target ref / XTA target name given verbatim */ };
 struct MTemplate { std::string name, params, decls; std::vector<MLoc> locs; std::vector<std::string> bps; int init = 0; std::vector<MEdge> edges; std::string init_ref_override, init_name_override; /* faults: what init names instead of a location */ };
 struct MModel { std::string gdecl; std::vector<MTemplate> templs; std::string system; };
@@ -128,6 +128,7 @@ static inline XmlDoc render_xml(const MModel& m)
             if (!l.name.empty()) d.leaf("name", padded(l.name));
             if (!l.inv.empty()) d.leaf("label", l.inv, {{"kind", "invariant"}}, xml_cdata_mask & 1);
             if (!l.rate.empty()) d.leaf("label", l.rate, {{"kind", "exponentialrate"}}, xml_cdata_mask & 1);
+            if (!l.comment.empty()) d.leaf("label", l.comment, {{"kind", "comments"}});
             if (l.urgent) d.empty("urgent");
             if (l.committed) d.empty("committed");
             d.end();
@@ -145,6 +146,7 @@ static inline XmlDoc render_xml(const MModel& m)
             if (!e.sync.empty()) d.leaf("label", e.sync, {{"kind", "synchronisation"}}, xml_cdata_mask & 1);
             if (!e.assign.empty()) d.leaf("label", e.assign, {{"kind", "assignment"}}, xml_cdata_mask & 1);
             if (!e.prob.empty()) d.leaf("label", e.prob, {{"kind", "probability"}}, xml_cdata_mask & 1);
+            if (!e.comment.empty()) d.leaf("label", e.comment, {{"kind", "comments"}});
             d.end();
         }
         d.end();
